@@ -457,10 +457,10 @@ Proof.
   rewrite (rel_sget st s ds Hrel). intros H. apply andb_true_iff in H. tauto.
 Qed.
 
-Lemma getm_agree_spec db st s id scope o_refs :
+Lemma getm_agree_spec db st s id scope o_refs tbl o_props :
   sinv st -> keys_sorted st -> rel st s ->
-  agree_op db proj_c01 st (SGetM id scope o_refs) = true ->
-  spec_op_ok proj_c01 s (SGetM id scope o_refs) = true.
+  agree_op db proj_c01 st (SGetM id scope o_refs tbl o_props) = true ->
+  spec_op_ok proj_c01 s (SGetM id scope o_refs tbl o_props) = true.
 Proof.
   intros Hinv Hks Hrel. cbn [agree_op spec_op_ok p_get proj_c01 negb orb].
   rewrite (entity_at_spec st id (now_of st) scope Hinv (strictly_sorted_NoDup _ Hks) ltac:(unfold now_of; lia)).
@@ -476,7 +476,7 @@ Proof.
   induction ops as [|o ops IH]; intros st s Hinv Hks Hrel Hwf; [reflexivity|].
   apply Forall_cons_iff in Hwf. destruct Hwf as [Ho Hops].
   destruct o as [w o_new | ds since limit latest o_ents o_next | ds limits o_pages
-                 | id at_ scope merged o_found o_parts o_del | fam o_keys | ds since limit o_ents o_next | id scope o_refs];
+                 | id at_ scope merged o_found o_parts o_del | fam o_keys | ds since limit o_ents o_next | id scope o_refs tbl o_props];
     cbn [agree_run spec_run]; intros H; apply andb_true_iff in H; destruct H as [H1 H2]; apply andb_true_iff; split.
   - destruct w; reflexivity.
   - destruct (apply_wop_refines (fst v_fixed) st (sget s) w Ho Hinv) as [Hinv' _].
